@@ -53,7 +53,7 @@ def digest(prefix_state, op):
 
 
 def run(ctx):
-    n_hist = ctx.budget(260, 6000)
+    n_hist = ctx.budget(160, 6000)
     cases = []
     if ctx.replay:
         cases = [("replay", ctx.replay["case"]["ops"], True)]
